@@ -7,6 +7,7 @@ import (
 	"bytes"
 	"fmt"
 	"strconv"
+	"strings"
 
 	pb "github.com/lni/dragonboat/v4/raftpb"
 	hooks "github.com/lni/dragonboat/v4/verifhooks/c13"
@@ -101,8 +102,37 @@ func genPayloadRules(r *vh.Rand, w *vh.LineWriter, next int, tier string) int {
 	return next
 }
 
+// genPayloadBatches: batches of entries (plain, encoded without and with snappy)
+// for the batched apply path rsm.StateMachine.handleBatch, which decodes every
+// payload of the batch before the state machine sees any of them.
+func genPayloadBatches(r *vh.Rand, w *vh.LineWriter, next int, tier string) int {
+	n := 60
+	if tier == "thorough" {
+		n = 5000
+	}
+	for i := 0; i < n; i++ {
+		var ops []string
+		for k := 1 + r.Intn(6); k > 0; k-- {
+			rule := []string{"rep", "recpad", "runs"}[r.Intn(3)]
+			sz := []int{1, 2, 17, 100, 127, 128, 500, 3000, 9000}[r.Intn(9)]
+			if r.Chance(1, 3) {
+				sz = 1 + r.Intn(2000)
+			}
+			ct := r.Intn(3)
+			if i%2 == 0 && r.Chance(2, 3) {
+				ct = 1
+			}
+			ops = append(ops, fmt.Sprintf("%d %s %d %d", ct, rule, r.Intn(256), sz))
+		}
+		w.Printf("%d PAYBATCH | %s\n", next, strings.Join(ops, " ; "))
+		next++
+	}
+	return next
+}
+
 func genPayload(r *vh.Rand, w *vh.LineWriter, next int, tier string) int {
 	next = genPayloadRules(r, w, next, tier)
+	next = genPayloadBatches(r, w, next, tier)
 	n := 300
 	if tier == "thorough" {
 		n = 50000
@@ -233,6 +263,67 @@ func runPayload(id string, f []string, line string, obs *vh.LineWriter, st *vh.S
 		}
 		st.Count("payload.rule." + f[2] + ".ct=" + f[1])
 		st.Case(line, f[1] == "1", "")
+	case "PAYBATCH":
+		var want [][]byte
+		var input []pb.Entry
+		var cur []string
+		flush := func() {
+			if len(cur) != 4 {
+				cur = nil
+				return
+			}
+			a, err := strconv.Atoi(cur[2])
+			must(err)
+			b, err := strconv.Atoi(cur[3])
+			must(err)
+			cmd := payloadByRule(cur[1], a, b)
+			e := pb.Entry{Index: uint64(len(input) + 1), Term: 1, Type: pb.ApplicationEntry, Cmd: cmd}
+			if cur[0] != "2" {
+				ct := hooks.NoCompression
+				if cur[0] == "1" {
+					ct = hooks.Snappy
+				}
+				e.Type = pb.EncodedEntry
+				if p := vh.Catch(func() { e.Cmd = hooks.GetEncoded(ct, cmd, nil) }); p != "" {
+					st.Violation(id, "GetEncoded panicked on a non-empty payload: "+p)
+				}
+			}
+			want = append(want, cmd)
+			input = append(input, e)
+			cur = nil
+		}
+		for _, t := range f[2:] {
+			if t == ";" {
+				flush()
+			} else {
+				cur = append(cur, t)
+			}
+		}
+		flush()
+		var seen [][]byte
+		var herr error
+		if p := vh.Catch(func() { seen, herr = hooks.HandleBatch(input) }); p != "" || herr != nil {
+			obs.Printf("%s PAYBATCH failed\n", id)
+			st.Violation(id, fmt.Sprintf("handleBatch failed on a batch of valid encoded entries: %s %v", p, herr))
+			return
+		}
+		var sb strings.Builder
+		for _, c := range seen {
+			fmt.Fprintf(&sb, " %d:%d", len(c), digest(c))
+		}
+		obs.Printf("%s PAYBATCH%s\n", id, sb.String())
+		if len(seen) != len(want) {
+			st.Violation(id, fmt.Sprintf("handleBatch handed %d entries to the state machine for a batch of %d", len(seen), len(want)))
+		} else {
+			for i := range want {
+				if !bytes.Equal(seen[i], want[i]) {
+					st.Violation(id, fmt.Sprintf("batched apply: entry %d of %d reaches the state machine with a payload different from the proposed one (%d bytes, want %d) once the whole batch is decoded", i+1, len(want), len(seen[i]), len(want[i])))
+					break
+				}
+			}
+		}
+		st.Count("paybatch")
+		st.Case(line, len(want) > 1, "")
 	case "PAYDEC":
 		obs.Printf("%s PAYDEC %s\n", id, payloadObs(vh.UnHex(f[1])))
 		st.Count("paydec")
